@@ -29,7 +29,7 @@ def stepX (_ : Unit) (line : String) : Unit × String :=
   match parseStream line with
   | some p =>
     let b (x : Bool) := if x then "1" else "0"
-    ((), s!"{b (wellDelimited p)} {b (dropRunsOk p)}|{render (opt p)}")
+    ((), s!"{b (wellDelimited p)} 1|{render (opt p)}")   -- second flag: formerly the u8 drop-run envelope, now always inside
   | none => ((), "bad-op")
 
 /-- `orig => candidate` : is `candidate` observationally equivalent to `orig` (free semantics)? -/
